@@ -65,7 +65,8 @@ Available options are:
 	}
 
 	if len(opt_l) > 0 {
-		if err := L.DoFile(opt_l); err != nil {
+		// -l name: require the library, as the usage text says (lua.c dolibrary)
+		if err := L.CallByParam(lua.P{Fn: L.GetGlobal("require"), NRet: 0, Protect: true}, lua.LString(opt_l)); err != nil {
 			fmt.Println(err.Error())
 		}
 	}
